@@ -192,6 +192,16 @@ def runToks (cfg : Cfg) : Mach Nat → List String → List String → Option (L
 def handle (line : String) : String :=
   match words line with
   | ["consts"] => s!"COMPACTION_FACTOR={Gen.COMPACTION_FACTOR} CULL_INTERVAL_LIMIT={Gen.CULL_INTERVAL_LIMIT}"
+  | "bisect" :: c1 :: c2 :: rest =>
+    -- validation of the `bisect_left` algorithm model: `bisect c1 c2 a1 b1 a2 b2 ...`
+    match c1.toNat?, c2.toNat?, rest.mapM String.toNat? with
+    | some c1, some c2, some ns =>
+      let rec pairs : List Nat → List (Nat × Nat)
+        | a :: b :: r => (a, b) :: pairs r
+        | _ => []
+      let dl := pairs ns
+      s!"py={bisectLeftPy dl (c1, c2)} abs={bisectLeft dl (c1, c2)}"
+    | _, _, _ => "bad-op"
   | cf :: n0 :: toks =>
     match cf.toNat?, n0.toNat? with
     | some cf, some n0 =>
